@@ -112,13 +112,121 @@ fn diff_multiset(exp: &[(i64, usize)], got: &[(i64, usize)]) -> String {
 /// The C01 / C04 sink oracle: every sink yields exactly the reference multiset, on exactly the
 /// hosts its kind prescribes.
 pub fn check_sinks(run: &JobRun, reference: &RefOut) -> Result<(), String> {
-    for (h, o) in run.hosts.iter().enumerate() {
-        if let HostOutcome::Panicked(m) = o {
-            return Err(format!("host {h} panicked: {m}; panics of the job: {:?}", run.ctx.panics.lock().unwrap()));
+    let panics = run.ctx.panics.lock().unwrap().clone();
+    check_sinks_of(&run.hosts, &panics, reference)
+}
+
+/// One OS process per host: every host runs `vrun xhost <file> <index>` (the same build), the
+/// hosts talk over loopback TCP exactly as in a cluster, and each prints what its sinks obtained.
+/// Nothing is shared between the hosts but the program and the configuration, so anything that is
+/// only consistent inside one process (a randomly keyed hasher, a process-wide static) shows.
+pub fn run_spec_processes(job: &JobSpec, cfg: &ConfigSpec, addr: AddrSeed, work_dir: &std::path::Path, timeout: std::time::Duration) -> Result<Vec<HostOutcome<Vec<SinkOut>>>, String> {
+    use std::io::Read;
+    use std::process::{Command, Stdio};
+    let n = cfg.layout.n_hosts();
+    let dir = work_dir.join("xproc");
+    std::fs::create_dir_all(&dir).map_err(|e| e.to_string())?;
+    let file = dir.join(format!("{}-{}-{}.json", std::process::id(), addr.shard, addr.job));
+    let spec = serde_json::json!({"job": job, "config": cfg, "shard": addr.shard, "job_no": addr.job});
+    std::fs::write(&file, serde_json::to_vec(&spec).unwrap()).map_err(|e| e.to_string())?;
+    let exe = std::env::current_exe().map_err(|e| e.to_string())?;
+    let mut children = Vec::new();
+    for i in 0..n {
+        let c = Command::new(&exe)
+            .args(["xhost", "C01", file.to_str().unwrap(), &i.to_string()])
+            .env("VERIF_ADDR_SLOT", crate::run::process_slot().to_string())
+            .stdin(Stdio::null())
+            // a file, not a pipe: the result of a host can exceed the pipe buffer, and nobody
+            // reads before all hosts have ended
+            .stdout(Stdio::from(std::fs::File::create(dir.join(format!("{}.out{i}", file.file_name().unwrap().to_str().unwrap()))).map_err(|e| e.to_string())?))
+            .stderr(Stdio::null())
+            .spawn()
+            .map_err(|e| format!("cannot spawn a host process: {e}"))?;
+        children.push(c);
+    }
+    let deadline = std::time::Instant::now() + timeout.mul_f64(crate::run::load_factor());
+    let mut done: Vec<Option<std::process::ExitStatus>> = vec![None; n];
+    loop {
+        let mut all = true;
+        for (i, c) in children.iter_mut().enumerate() {
+            if done[i].is_none() {
+                match c.try_wait() {
+                    Ok(Some(st)) => done[i] = Some(st),
+                    _ => all = false,
+                }
+            }
+        }
+        if all {
+            break;
+        }
+        if std::time::Instant::now() > deadline {
+            for (i, c) in children.iter_mut().enumerate() {
+                let _ = c.kill();
+                let _ = c.wait();
+                let _ = std::fs::remove_file(dir.join(format!("{}.out{i}", file.file_name().unwrap().to_str().unwrap())));
+            }
+            let running: Vec<usize> = done.iter().enumerate().filter(|(_, d)| d.is_none()).map(|(i, _)| i).collect();
+            return Err(format!("host processes {running:?} of {n} did not end within {:?} (job kept in {})", timeout.mul_f64(crate::run::load_factor()), file.display()));
+        }
+        std::thread::sleep(std::time::Duration::from_millis(5));
+    }
+    let _ = std::fs::remove_file(&file);
+    let mut out = Vec::new();
+    for (i, _c) in children.into_iter().enumerate() {
+        let mut txt = String::new();
+        let outp = dir.join(format!("{}.out{i}", file.file_name().unwrap().to_str().unwrap()));
+        if let Ok(mut o) = std::fs::File::open(&outp) {
+            let _ = o.read_to_string(&mut txt);
+        }
+        let _ = std::fs::remove_file(&outp);
+        let line = txt.lines().rev().find(|l| l.starts_with("XHOST ")).map(|l| l[6..].to_string());
+        match line.and_then(|l| serde_json::from_str::<serde_json::Value>(&l).ok()) {
+            Some(v) if v.get("sinks").is_some() => match serde_json::from_value::<Vec<SinkOut>>(v["sinks"].clone()) {
+                Ok(s) => out.push(HostOutcome::Done(s)),
+                Err(e) => return Err(format!("host process {i}: unreadable result ({e})")),
+            },
+            Some(v) => out.push(HostOutcome::Panicked(v["panicked"].as_str().unwrap_or("?").to_string())),
+            None => out.push(HostOutcome::Panicked(format!("host process {i} ended with {:?} and no result", done[i]))),
         }
     }
-    let hosts: Vec<&Vec<SinkOut>> = run
-        .hosts
+    Ok(out)
+}
+
+/// The body of `vrun xhost`: run host `index` of the job in this process and print its sinks.
+pub fn xhost_main(file: &str, index: usize) -> i32 {
+    let Ok(txt) = std::fs::read_to_string(file) else { return 2 };
+    let Ok(v) = serde_json::from_str::<serde_json::Value>(&txt) else { return 2 };
+    let (Ok(job), Ok(cfg)) = (serde_json::from_value::<JobSpec>(v["job"].clone()), serde_json::from_value::<ConfigSpec>(v["config"].clone())) else { return 2 };
+    let addr = AddrSeed { shard: v["shard"].as_u64().unwrap_or(0) as u32, job: v["job_no"].as_u64().unwrap_or(0) };
+    let mut configs = crate::run::host_configs(&cfg.layout, addr);
+    if index >= configs.len() {
+        return 2;
+    }
+    let config = configs.remove(index);
+    let bopts = BuildOpts { probes: false, stamp: false, batch: cfg.batch, crash: None };
+    let res = std::panic::catch_unwind(std::panic::AssertUnwindSafe(|| {
+        let env = renoir::StreamContext::new(config);
+        let mut b = Builder::new(&env, bopts);
+        b.job(&job);
+        let sinks = std::mem::take(&mut b.sinks);
+        drop(b);
+        env.execute_blocking();
+        sinks.into_iter().map(|c| c()).collect::<Vec<SinkOut>>()
+    }));
+    match res {
+        Ok(s) => println!("XHOST {}", serde_json::json!({"sinks": s})),
+        Err(e) => println!("XHOST {}", serde_json::json!({"panicked": crate::run::panic_msg(&e)})),
+    }
+    0
+}
+
+pub fn check_sinks_of(hosts_out: &[HostOutcome<Vec<SinkOut>>], panics: &[String], reference: &RefOut) -> Result<(), String> {
+    for (h, o) in hosts_out.iter().enumerate() {
+        if let HostOutcome::Panicked(m) = o {
+            return Err(format!("host {h} panicked: {m}; panics of the job: {:?}", panics));
+        }
+    }
+    let hosts: Vec<&Vec<SinkOut>> = hosts_out
         .iter()
         .map(|h| match h {
             HostOutcome::Done(v) => v,
